@@ -75,7 +75,10 @@ def run (toks : List String) : String :=
       | "C07" => oracleC07 op o
       | "C08" => oracleC08 op o
       | "C09" => oracleC09 op o a
-      | "C10" => oracleC10 op o
+      | "C10" => oracleC10 op o (fun op o => match op with
+          | "aztec" :: _ => aztecStructural op o
+          | "pdf" :: _ => oracleC04 op o
+          | _ => .pass)
       | "C11" => oracleC11 op o a structuralAll
       | "C12" => oracleC12 op o aztecEcc
       | "C13" => oracleC13 op o
